@@ -14,7 +14,7 @@ use serde_json::Value;
 use std::collections::BTreeSet;
 use std::path::Path;
 
-pub const RULE: &str = "proptest-generated in-memory workspaces over a pool of 2-3 names with a 50% bias for fixtures requesting their own name, so that override chains of length 1-4 through same file / conftest levels / conftest-imported modules / plugin / third-party arise; every column of every definition line that carries a same-named parameter is queried (parameter span: go-to-definition == next link outward per the model, never the fixture itself; function-name span: position lookup, get_definition_at_line and find_references_for_definition concern this link; other columns: nothing), and every usage is bound per the model. Non-trivial = a chain of >=2 links with one link outside the conftest hierarchy, or >=3 links; distinct = distinct workspace specs.";
+pub const RULE: &str = "proptest-generated in-memory workspaces over a pool of 2-3 names with a 50% bias for fixtures requesting their own name, so that override chains of length 1-4 (about one fixture function in six written entirely on one physical line, so that its parameter sits on the last line of its own definition) through same file / conftest levels / conftest-imported modules / plugin / third-party arise; every column of every definition line that carries a same-named parameter is queried (parameter span: go-to-definition == next link outward per the model, never the fixture itself; function-name span: position lookup, get_definition_at_line and find_references_for_definition concern this link; other columns: nothing), and every usage is bound per the model. Non-trivial = a chain of >=2 links with one link outside the conftest hierarchy, or >=3 links; distinct = distinct workspace specs.";
 pub const ASSUMPTIONS: &[&str] = &[
     "reference model of pytest lookup with self-exclusion (model.rs)",
     "single-line signatures (the quantifier speaks of a definition line carrying both name and parameter)",
